@@ -233,4 +233,11 @@ theorem c04_check_block_size_is_source_size (h : PackHeader) (n : Nat) (hn : h.c
     simp [Generated.packHeaderCheckInfoSize, Generated.blockCheckSize]
   · simp at hn
 
+/-- **The check block the creators write is the source's**: `CheckInfo::serialize` translated on every run writes
+    `CheckInfo.encode` — the bytes `framePack` (over which `c04_created_verifies` is stated) puts in the check
+    block: `0` alone, or `1` and the 32 bytes of the hash. -/
+theorem c04_check_block_written_is_source_block (ci : CheckInfo) :
+    writesBytes (Generated.checkInfoWrites (match ci with | CheckInfo.none => Option.none | CheckInfo.blake3 h => some h)) = ci.encode :=
+  gen_checkInfoWrites ci
+
 end Jubako
